@@ -38,10 +38,10 @@ def who_of(actor):
     return actor
 
 
-CALLS = {"NextCall": "next", "RespCall": "response", "ErrCall": "error", "InitErrCall": "initerror",
+CALLS = {"CredsCall": "creds", "NextCall": "next", "RespCall": "response", "ErrCall": "error", "InitErrCall": "initerror",
          "RegisterCall": "register", "ExtInitErrCall": "exterror", "ExtExitErrCall": "exterror",
          "RestoreNextCall": "restorenext", "RestoreErrCall": "restoreerror", "RouteCall": "route"}
-RETS = {"NextRet", "RespRet", "ErrRet", "InitErrRet", "RegisterRet", "ExtInitErrRet", "ExtExitErrRet",
+RETS = {"CredsRet", "NextRet", "RespRet", "ErrRet", "InitErrRet", "RegisterRet", "ExtInitErrRet", "ExtExitErrRet",
         "RestoreNextRet", "RestoreErrRet", "RouteRet"}
 
 VALID_ET = re.compile(r"^(Runtime|Function)\.[A-Z][a-zA-Z]+$")
@@ -83,13 +83,20 @@ def suffix_after(raw_events, mark_name):
     return out
 
 
+def sanitise(et):
+    """the error-type grammar of C20 (exactly Runtime.X / Function.X), applied to what the runtime sent"""
+    if VALID_ET.match(et or ""):
+        return et
+    return "Function.Unknown" if (et or "").startswith("Function.") else "Runtime.Unknown"
+
+
 def project(raw_events, scenario, bound=None):
     """raw_events: list of dicts from the recorder; scenario: the scenario dict (for the header).
     Returns the list of projected events, starting with a Begin event."""
     opt = scenario.get("opt", {})
     files = sorted(e["name"] for e in opt.get("ext", []) if e.get("kind", "file") != "dir")
     lf = sorted(opt.get("launchFail", []))
-    out = [dict(BLANK, e="Begin", files=files, lf=lf, sid=scenario.get("id", ""), timeoutMs=opt.get("timeoutMs", 2000),
+    out = [dict(BLANK, e="Begin", feat=bool(opt.get("initCaching", False)), files=files, lf=lf, sid=scenario.get("id", ""), timeoutMs=opt.get("timeoutMs", 2000),
                 kind=scenario.get("meta", {}).get("begin", ""),
                 strict=not scenario.get("meta", {}).get("race", False))]
 
@@ -167,6 +174,13 @@ def project(raw_events, scenario, bound=None):
             o["e"] = "InitCall"
         elif kind == "Exec":
             o.update(e="Exec", base=ev["base"], gen=ev["gen"], pk=ev["kind"], err=ev.get("err", ""))
+            envm = ev.get("env")
+            if opt.get("initCaching") and isinstance(envm, dict):
+                # snapshot mode: credentials are served by token, never placed in the environment; the token is
+                if any(k in envm for k in ("AWS_ACCESS_KEY_ID", "AWS_SECRET_ACCESS_KEY", "AWS_SESSION_TOKEN")):
+                    o["err"] = "credentials-in-environment"
+                elif ev["kind"] == "rt" and not envm.get("AWS_CONTAINER_AUTHORIZATION_TOKEN"):
+                    o["err"] = "no-credentials-token-in-environment"
         elif kind == "NextCall" and ev.get("abortAfter") is not None:
             o.update(e="Call", cid=ev["seq"], who="rt", api="next", gen=ev.get("gen", 0))
         elif kind in CALLS:
@@ -178,7 +192,7 @@ def project(raw_events, scenario, bound=None):
                 o["et"] = ev.get("errType", "")
             elif kind == "InitErrCall":
                 o["body"] = body_label(ev.get("body"))
-                o["et"] = ev.get("errType", "")
+                o["et"] = sanitise(ev.get("errType", ""))
             elif kind == "RegisterCall":
                 o["name"] = ev.get("name", "")
                 evs = ev.get("events") or []
@@ -187,6 +201,10 @@ def project(raw_events, scenario, bound=None):
                 o["feat"] = "accountId" in (ev.get("features") or "")
             elif kind == "RouteCall":
                 o["name"] = ev.get("cls", "")
+            elif kind == "CredsCall":
+                o["idc"] = ev.get("idc") or "ok"
+            elif kind in ("RestoreErrCall",):
+                o["et"] = sanitise(ev.get("errType", ""))
             elif kind == "NextCall" and o["who"] != "rt":
                 o["idc"] = ev.get("idc") or "ok"
                 o["agen"] = ev.get("idgen", 0)
@@ -205,6 +223,8 @@ def project(raw_events, scenario, bound=None):
                 o["kind"] = "acct" if ev.get("account") not in (None, "") else ""
                 if o["kind"] == "acct" and ev.get("account") != opt.get("accountId", ""):
                     o["reason"] = "meta-bad"
+            if kind == "CredsRet" and ev.get("status") == 200:
+                o["reason"] = ev.get("creds", "")
             if kind == "NextRet":
                 o["kind"] = ev.get("kind", "")
                 o["inv"] = reqk.get(ev.get("reqid", ""), 0)
@@ -259,7 +279,7 @@ def project(raw_events, scenario, bound=None):
             # no action of the specification corresponds to it
             o.update(e="NoOutcome")
         elif kind in ("ResetCall", "ResetRet", "ShutdownCall", "ShutdownRet", "RestoreCall", "RestoreRet"):
-            o.update(e=kind, reason=ev.get("reason", ""), err=ev.get("err", ""), timeoutMs=ev.get("timeoutMs", 0))
+            o.update(e=kind, reason=ev.get("reason", "") or ev.get("label", ""), err=ev.get("err", ""), timeoutMs=ev.get("timeoutMs", 0))
         else:
             continue
         if bound is not None and o["e"] in bound:
